@@ -1108,4 +1108,103 @@ theorem quickKeep_refs (ti : TreeInfo) (t : GoNode) (X : TP) (d : Bool) (p : Pat
   · rw [hq]; exact h1
   · rw [hq]; exact Or.inr h3
 
+/-! ## the whole-attempt theorem for any program with the code, tables and capture size of `emit ti t` -/
+
+theorem InstrAt.congr {p p' : Prog} {a : Nat} {i : Instr} (hc : p.codes = p'.codes) (h : InstrAt p' a i) : InstrAt p a i := by
+  constructor
+  · have := h.fetch
+    unfold VM.fetch at this ⊢
+    rw [hc]; exact this
+  · intro k hk; rw [hc]; exact h.arg k hk
+
+theorem CodeAt.congr {p p' : Prog} {a : Nat} {c : Code} (hc : p.codes = p'.codes) (h : CodeAt p' a c) : CodeAt p a c := by
+  obtain ⟨pre, post, h1, h2, h3, h4⟩ := h
+  exact ⟨pre, post, by rw [hc]; exact h1, h2, h3, h4⟩
+
+/-- **`compile_correct_upto` for a program that shares code words, tables and capture size with `emit ti t`** (the
+    interpreter reads nothing else of a `Prog`: `trackcount`, `caps`, `rtl` are not consulted by `VM.step`).  The
+    bool-only program `{ emit ti t with codes := QuickCodes }` is such a program for the stripped tree. -/
+theorem compile_correct_prog (k : Nat) (hk : k ≤ maxTier) (ti : TreeInfo) (t : GoNode) (TPx : TP) (env : VM.Env)
+    (se : Spec.Env) (pat : Pat) (i : Nat) (p : Prog)
+    (hpc : p.codes = (emit ti t).codes) (hps : p.strings = (emit ti t).strings) (hpn : p.nsets = (emit ti t).nsets)
+    (hpz : p.capsize = capsize ti)
+    (hfrag : InFrag k TPx ti t = true) (hwf : treeWf ti t = true) (hpat : toPatRoot TPx ti.rtl t = some pat)
+    (hrel : EnvRel TPx (codeFromTree (mainCfg ti) t).2.sets env se) (hi : i ≤ se.n) (hlen : se.n ≤ 2147483647)
+    (hlenS : 4 ≤ k → se.n < 2147483647) (hecma : 6 ≤ k → env.ecma = false) :
+    ∃ s0 s n, VM.init p (i : Int) = .ok s0 ∧
+      (∀ fuel, n ≤ fuel → (VM.run p env fuel s0).1 = .done s) ∧ Agrees ti se pat i s := by
+  obtain ⟨_, htier, _, hslot0, hid⟩ := inFrag_spec hfrag
+  obtain ⟨body, ht, hbody⟩ := toPatRoot_some hpat
+  simp only [treeWf, Bool.and_eq_true] at hwf
+  obtain ⟨⟨hok, hcaps⟩, hbd⟩ := hwf
+  obtain ⟨hlb', hroot', hstop'⟩ := codeAt_root ti t hok
+  have hlb := InstrAt.congr hpc hlb'
+  have hroot := CodeAt.congr hpc hroot'
+  have hstop := InstrAt.congr hpc hstop'
+  let W : World :=
+    { X := { p := p, env := env, se := se, sl := slotOf ti },
+      TPx := TPx, caps := (writerCaps ti).2, fin := (codeFromTree (mainCfg ti) t).2,
+      hrel := hrel, hstr := hps, hnsets := hpn, hsl := fun _ => rfl, hlen := hlen, k := tier t,
+      hlenS := fun h => hlenS (by omega), hid := hid, hecma := fun h => hecma (by omega) }
+  have hpr : toPat TPx ti.rtl t = some (.cap 0 pat) := by
+    rw [ht]; simp [toPat, hbody]
+  have hsl0 : slotOf ti 0 = 0 := by simp [slotOf, hslot0]
+  have hcs : 0 < capsize ti := by
+    rw [ht] at hcaps
+    simp only [capsOk, beq_self_eq_true, if_true, Bool.and_eq_true] at hcaps
+    have := slotOk_iff.1 hcaps.1
+    omega
+  have hcsp : 0 < p.capsize := by rw [hpz]; exact hcs
+  have hf0 : VM.fetch p 0 = .ok (decode opLazybranch) := hlb.fetch
+  let s0 : VMState := startState p (decode opLazybranch) (i : Int)
+  have hinit : VM.init p (i : Int) = .ok s0 := by simp [VM.init, hf0, Except.map, s0, startState]
+  have he0 : Entry W.X 0 i [] [] [] s0 := ⟨rfl, hf0, rfl, rfl, rfl, capRep_init _ _⟩
+  obtain ⟨s1, hr1, he1⟩ := lazybranch_leads (X := W.X) he0 hlb hroot.fetch_start
+  have hwfst : St.wf se.n ⟨i, []⟩ := ⟨hi, by simp⟩
+  have hcaps' : capsOk W.cfg W.X.p.capsize t = true := by
+    show capsOk (mainCfg ti) p.capsize t = true
+    rw [hpz]; exact hcaps
+  have hdel := node_delivers W (show W.k ≤ maxTier from Nat.le_trans htier hk) t ti.rtl 2 ⟨[], []⟩ (.cap 0 pat) (Nat.le_refl _) hpr hok hcaps' hbd hroot (TabExt.refl _) i
+    [(0 : Int)] [] (i : Int) [] s1 hwfst (by simpa using he1)
+  replace hdel : Delivers W.X (2 + size (mainCfg ti) t) [(0 : Int)] [] [] []
+      (m se (.cap 0 pat) ti.rtl ⟨i, []⟩) s1 := hdel
+  refine ⟨s0, ?_⟩
+  cases hrs : m se (.cap 0 pat) ti.rtl ⟨i, []⟩ with
+  | nil =>
+    rw [hrs] at hdel
+    obtain ⟨s2, hr2, v', hf2⟩ := hdel
+    obtain ⟨s3, hr3, hpc3, hop3, _, _, hcap3⟩ := lazybranch_back_raw (X := W.X) (a := 0) (T := []) (by simpa using hf2) hlb
+      ⟨_, hstop.fetch⟩
+    have hst := stop_step_raw hpc3 hop3 hstop
+    obtain ⟨n, hn⟩ := run_of_reach ((hr1.trans hr2).trans hr3) hst
+    refine ⟨s3, n, hinit, hn, ?_⟩
+    have hatt : Spec.attempt se pat ti.rtl i = none := by simp [Spec.attempt, hrs]
+    refine ⟨?_, by simp [hatt], by simp [hatt]⟩
+    have hcnt := hcap3.cnt 0 hcsp
+    simp [VM.matched, hatt, hcnt]
+  | cons r rs =>
+    rw [hrs] at hdel
+    obtain ⟨F, _, ⟨s2, hr2, v', he2⟩, _⟩ := hdel
+    have hst := stop_step he2 hstop
+    obtain ⟨n, hn⟩ := run_of_reach (hr1.trans hr2) hst
+    refine ⟨s2, n, hinit, hn, ?_⟩
+    have hatt : Spec.attempt se pat ti.rtl i = some r := by simp [Spec.attempt, hrs]
+    refine ⟨?_, ?_, ?_⟩
+    · have hmem : r ∈ m se (.cap 0 pat) ti.rtl ⟨i, []⟩ := by rw [hrs]; simp
+      simp only [m, List.mem_map] at hmem
+      obtain ⟨y, _, hy⟩ := hmem
+      have hcnt := he2.cap.cnt 0 hcsp
+      have : 0 < (r.caps.filter (fun x => slotOf ti x.1 == 0)).length := by
+        rw [← hy]
+        simp [List.filter_append, hsl0]
+      have hpos : MatchBuilder.cnt s2.cap.m 0 > 0 := by
+        have : MatchBuilder.cnt s2.cap.m 0 = (r.caps.filter (fun x => slotOf ti x.1 == 0)).length := hcnt
+        omega
+      simp [VM.matched, hatt, hpos]
+    · intro st hst'; rw [hatt] at hst'; cases hst'; exact he2.tp
+    · intro st hst'; rw [hatt] at hst'; cases hst'
+      have := he2.cap
+      rw [show W.X.p.capsize = capsize ti from hpz] at this
+      exact this
+
 end RegexVerif.Compile
